@@ -81,8 +81,15 @@ def opResScaleZ : Handler := fun args impl =>
     | _, _, _, _ => bad
   | _ => bad
 
+/-- process level: the CLI normalises its coefficient lists, so `cli.res f g` must behave as `res` on
+the canonical forms; a panic of the process is `panic <kind>` -/
+def opCliRes : Handler := fun args impl =>
+  match args.mapM parseInts? with
+  | some [f, g] => opRes [showInts (NTV.PolyG.fromRaw f), showInts (NTV.PolyG.fromRaw g)] impl
+  | _ => bad
+
 def ops : List (String × Handler) :=
-  [("res", opRes), ("res.raw", opRes), ("resq", opResQ), ("resscale", opResScale),
+  [("cli.res", opCliRes), ("res", opRes), ("res.raw", opRes), ("resq", opResQ), ("resscale", opResScale),
    ("resscale.z", opResScaleZ)]
 
 end NTV.Driver.C04
